@@ -24,6 +24,9 @@ class ControlRequestHandler(USBRequestHandler):
                                 of acknowledged.
             """
 
+        # Keep track of whether we've sent a status-stage ZLP we're expecting an ACK to.
+        expecting_ack = Signal()
+
         # Provide an response to the STATUS stage.
         with m.If(self.interface.status_requested):
 
@@ -32,15 +35,24 @@ class ControlRequestHandler(USBRequestHandler):
                 m.d.comb += self.interface.handshakes_out.stall.eq(1)
             with m.Else():
                 m.d.comb += self.send_zlp()
+                m.d.usb  += expecting_ack.eq(1)
 
-        # Accept the relevant value after the packet is ACK'd...
-        with m.If(self.interface.handshakes_in.ack):
+        # If the host issues a new token, it has moved on without ACKing our ZLP.
+        with m.If(self.interface.tokenizer.new_token):
+            m.d.usb += expecting_ack.eq(0)
+
+        # Accept the relevant value after the packet is ACK'd. Handshake packets carry no
+        # address; so only an ACK that directly follows our own status-stage ZLP, while our
+        # IN token is still the current token, counts -- any other ACK belongs to another
+        # endpoint's (or another device's) transaction.
+        with m.If(self.interface.handshakes_in.ack & expecting_ack & self.interface.tokenizer.is_in):
             m.d.comb += [
                 write_strobe      .eq(1),
                 new_value_signal  .eq(self.interface.setup.value)
             ]
 
             # ... and then return to idle.
+            m.d.usb += expecting_ack.eq(0)
             m.next = 'IDLE'
 
 
